@@ -25,6 +25,7 @@ RULE = (
     "`sync(f) is f` for coroutine functions) and ordering of the await log against the consumer's requests "
     "(await_each: awaitable i entered only after request i began, never overlapping, nothing beyond the request). "
     "Non-trivial: an awaitable layer is present and >=1 item/argument; distinct = distinct scenario tuples."
+    " Extensions of rounds 9-12: requests after the end, argument values that are coroutine objects, functools.wraps of the other kind, bound method after its function, partial keyword overridden, generator-based coroutines."
 )
 COMPONENTS = COMPONENTS_BASE
 ASSUMPTIONS = ["awaitables log their own entry/exit; items are plain integers tagged per scenario"]
